@@ -216,7 +216,8 @@ def generate(repo):
     return '\n'.join(out)
 
 
-def main(repo='/repo', dest='/verif/coq/gen/Elements.v'):
+def main(repo='/repo', dest=None):
+    dest = dest or gen_path('Elements.v')
     return write_if_changed(dest, generate(repo))
 
 
